@@ -212,6 +212,27 @@ def run(ctx):
         ctx.unresolved('correspondence cpppo.remote.plc_modbus.merge/shatter = Model.Plc.merge/shatter', first_dis)
     elif ndis:
         ctx.broken.append('correspondence cpppo.remote.plc_modbus.merge/shatter = Model.Plc.merge/shatter')
+    # what is logged must not change what is planned: every 7th case again with the library's loggers at DEBUG (modbus_poll -v -v)
+    import logging
+    saved = []
+    for name in ('cpppo.remote', 'cpppo', 'remote'):
+        lg = logging.getLogger(name)
+        saved.append((lg, lg.level, lg.propagate, list(lg.handlers)))
+        lg.setLevel(logging.DEBUG); lg.propagate = False; lg.handlers = [logging.NullHandler()]
+    try:
+        nlog = 0
+        for c, i in list(zip(cases, impl))[::7]:
+            nlog += 1
+            j = run_case(c)
+            if j != i:
+                nbad += 1
+                ctx.violation(dict(describe(c), output=i[1], output_with_debug_logging=j[1]), 'with DEBUG logging enabled the result differs')
+                break
+    finally:
+        for lg, level, prop, hs in saved:
+            lg.setLevel(level); lg.propagate = prop; lg.handlers = hs
+    cov['cases_repeated_with_debug_logging'] = nlog
+    cov['impl_property_failures'] = nbad
     for c, i in list(zip(cases, impl))[:: max(1, len(cases) // 5)]:
         ctx.sample(dict(describe(c), impl_output=i[1]))
     ctx.assumptions += ['Python int = Coq Z; sorted() on tuples = lexicographic insertion sort of the model',
